@@ -371,3 +371,35 @@ def c08_bar_thumb(e):
     c = cat.console(color_system="truecolor" if color else None, force_terminal=color)
     lines = cat.render_lines(c, Bar(size, begin, end), w)
     return len(lines) == 1 and rw(lines[0]) == w
+
+
+# --- one ProgressBar object rendered, updated and rendered again (state on the bar) ----------------------------------------
+@symx("C08-bars-history", timeout=900, kind="C+S", functions=["rich/progress_bar.py:ProgressBar.__rich_console__", "rich/progress_bar.py:ProgressBar.update",
+                                                             "rich/progress_bar.py:ProgressBar._render_pulse"],
+      bounds="ONE ProgressBar (total 10 or 200, completed from {0, 5, 150, 300}, pulse on/off, colour on/off) rendered at a width from "
+             "{1, 4, 10, 33, 80}, then update(completed from {0, 3, 150}, total from {unchanged, 2, 120, 400}) or none, then rendered "
+             "at a second width from the same set: each rendering is one line, never wider than its width and exactly the width when "
+             "colour is available (solver-enumerated, native)")
+def c08_bars_history(e):
+    widths = [1, 4, 10, 33, 80]
+    color = bool(e.mkbool("color"))
+    c = cat.console(color_system="truecolor" if color else None, force_terminal=color)
+    total = [10, 200][int(e.mk("total", 0, 1))]
+    done = [0, 5, 150, 300][int(e.mk("completed", 0, 3))]
+    pulse = bool(e.mkbool("pulse"))
+    bar = ProgressBar(total=total, completed=done, pulse=pulse, animation_time=0.3)
+    w1 = widths[int(e.mk("w1", 0, 4))]
+    w2 = widths[int(e.mk("w2", 0, 4))]
+
+    def ok(w):
+        lines = cat.render_lines(c, bar, w)
+        if len(lines) > 1 or any(x > w for x in cat.widths(lines)):
+            return False
+        return not (color and lines and rw(lines[0]) != w)
+    if not ok(w1):
+        return False
+    upd = int(e.mk("update", 0, 3))
+    if upd:
+        nt = [None, 2, 120, 400][int(e.mk("new_total", 0, 3))]
+        bar.update([0, 3, 150][upd - 1], total=nt)
+    return ok(w2) and ok(w1)
